@@ -14,6 +14,7 @@ CONSTANTS
   Dev_RsrcRecursion = FALSE
   Dev_FirstDepth = FALSE
   Dev_KidsDepth = FALSE
+  FirstWalkIterative = FALSE
   StackFrames = 300
   OutlineDepthLimit = 256
   NameTreeDepthLimit = 256
